@@ -119,6 +119,8 @@ type workerOut struct {
 	LastIndex  int            `json:"last_index"`
 	TimedOut   bool           `json:"timed_out"`
 	ExecMillis int64          `json:"exec_ms"`
+	SlowIndex  int            `json:"slow_index"`
+	SlowMs     int64          `json:"slow_ms"`
 }
 
 func runWorker(o *opts) {
@@ -142,8 +144,12 @@ func runWorker(o *opts) {
 			out.TimedOut = true
 			break
 		}
+		tc := time.Now()
 		in := ch.Gen(ctx, i)
 		res := ch.Exec(ctx, in)
+		if d := time.Since(tc).Milliseconds(); d > out.SlowMs {
+			out.SlowMs, out.SlowIndex = d, i
+		}
 		out.Cases++
 		out.LastIndex = i
 		out.Ticks += res.SimTicks
@@ -298,6 +304,12 @@ func runCtl(o *opts) {
 		viols = append(viols, w.Viols...)
 	}
 	exploreWall := time.Since(t0).Seconds()
+	slowIdx, slowMs := 0, int64(0)
+	for _, w := range outs {
+		if w.SlowMs > slowMs {
+			slowIdx, slowMs = w.SlowIndex, w.SlowMs
+		}
+	}
 
 	// violations: group by (class,key), keep the one with the smallest case index, shrink, write replay
 	sort.SliceStable(viols, func(i, j int) bool { return viols[i].Input.Index < viols[j].Input.Index })
@@ -400,6 +412,7 @@ func runCtl(o *opts) {
 		"real_components":     ch.Real,
 		"stub_components":     ch.Stubs,
 		"violation_groups":    len(order),
+		"slowest_case":        map[string]any{"index": slowIdx, "ms": slowMs},
 		"known_findings_hit":  len(knownLines),
 	}
 	ev := map[string]any{
